@@ -50,6 +50,10 @@ def run(tier, seed, replay):
         for cl in fl["clauses"]:
             if cl == "stream_bytes_eq_lookup":
                 continue      # byte identity of the stream and the lookup path is C02's clause (checks/c02.py runs these cases too)
+            if cl in ("declared", "file_declared"):
+                # C04 asks for identity under whatever compression the output DECLARES; which one that is, is reported only
+                run.observation("declared_compression", {"src_tc": fl["case"]["src_tc"], "target": fl["case"]["target"], "declared": fl["case"].get("declared")})
+                continue
             c = fl["case"]
             rec = {"clause": cl, "src_tc": c["src_tc"], "target": c["target"], "force": c["force"], "fmt": c["fmt"], "case": c}
             if line - 1 < len(case_list):
@@ -65,6 +69,9 @@ def run(tier, seed, replay):
     for (line, fl) in vc.fails:
         for cl in fl["clauses"]:
             c = fl["case"]
+            if cl == "cli_file_declared":
+                run.observation("declared_compression_cli", {"src_tc": c["src_tc"], "target": c["target"], "fmt": c["fmt"]})
+                continue
             if c.get("override") == 1:
                 # `--override-input-compression` is not part of C04 (stated relative to the compression the source DECLARES)
                 run.observation("override_input_compression", {"clause": cl, "src_tc": c["src_tc"], "target": c["target"], "fmt": c["fmt"], "args": c.get("args")})
